@@ -1,5 +1,10 @@
 (* proofs/C20.v — sending survives connection faults (SendFault.v against SpecC20.v).
-   No axioms, no admits. *)
+   No axioms, no admits.
+   Contents: world lemmas; shape of the trace of one Send (dshape/cshape/bshape); fo_wf/b_wf;
+   the C20_judged theorems (one send, sequences, the runner's schedule); success = written exactly once;
+   w_wf preservation; C20_failover; ids of a trace (ids_in); C20_later_direct; C20_refused;
+   C20_no_dup; trace judge => count judge (C20_trace_judge_implies_obs); what the extracted
+   runner prints (client_obs, backend_obs, the C20_obs_judged theorems); non-vacuity Examples. *)
 From Coq Require Import List Bool Arith Lia.
 From Model Require Import SendFault SpecC20 Run.
 Import ListNotations.
@@ -230,8 +235,10 @@ Ltac shapes :=
   repeat match goal with
   | H : cshape _ _ _ _ _ _ |- _ => inv H
   | H : dshape _ _ _ _ _ _ _ |- _ => inv H
-  | H : tc_conn _ = _ |- _ => cbn in H; first [discriminate H | inv H]
+  | H : tc_conn (Build_tcp_client _ _) = _ |- _ => cbn in H; first [discriminate H | inv H]
   end.
+(* NB the last rule must only fire on a literal record: on [H : tc_conn p = Some c] with p a
+   variable, [inversion H] re-generates H and [repeat] never terminates. *)
 Ltac eqbs :=
   repeat match goal with
   | |- context [Nat.eqb ?a ?b] => destruct (Nat.eqb_spec a b); try lia; cbn
@@ -734,10 +741,139 @@ Proof.
   rewrite (client_fresh _ _ _ (after_write_wf c w Hw) Hd' Hh), after_write_next. reflexivity.
 Qed.
 
+(* ================================================================== connection ids occurring in a trace *)
 (* connection ids an event talks about *)
 Definition ev_ids (e : io_event) : list nat :=
   match e with EWrite c _ => [c] | EDial (Some c) => [c] | EDial None => [] | EClose c => [c] end.
+(* every id occurring in tr satisfies P *)
+Definition ids_in (P : nat -> Prop) (tr : list io_event) : Prop :=
+  forall e, In e tr -> forall c, In c (ev_ids e) -> P c.
 
+Lemma ids_in_nil P : ids_in P [].
+Proof. intros e []. Qed.
+Lemma ids_in_cons (P : nat -> Prop) e r :
+  match e with EWrite c _ => P c | EDial (Some c) => P c | EDial None => True | EClose c => P c end ->
+  ids_in P r -> ids_in P (e :: r).
+Proof.
+  intros He Hr e' [<-|Hin]; [|exact (Hr e' Hin)].
+  destruct e as [c b|[c|]|c]; cbn; intros c0 Hc0; try contradiction;
+    destruct Hc0 as [<-|[]]; exact He.
+Qed.
+Lemma ids_in_app P a b : ids_in P a -> ids_in P b -> ids_in P (a ++ b).
+Proof. intros Ha Hb e Hin. apply in_app_or in Hin. destruct Hin as [Hin|Hin]; [exact (Ha e Hin)|exact (Hb e Hin)]. Qed.
+Lemma ids_in_weaken (P Q : nat -> Prop) tr : (forall c, P c -> Q c) -> ids_in P tr -> ids_in Q tr.
+Proof. intros HPQ H e Hin c Hc. apply HPQ. exact (H e Hin c Hc). Qed.
+
+Ltac ids_solve :=
+  cbn [app];
+  repeat (apply ids_in_cons; [cbv beta iota; first [exact I | lia | (left; assumption) | (left; reflexivity) | (right; lia)]|]);
+  try apply ids_in_nil.
+
+(* iterations starting without a connection only talk about the ids they allocate *)
+Lemma dshape_ids rec k n t' n' tr ok :
+  dshape rec k n t' n' tr ok ->
+  n <= n' /\ (forall c, tc_conn t' = Some c -> n <= c < n') /\ ids_in (fun c => n <= c < n') tr.
+Proof.
+  induction 1 as [k n|n|k n|k n|k n t' n' tr ok Hd (IH1 & IH2 & IH3)].
+  - split; [lia|split; [cbn; intros c Hc; discriminate Hc|ids_solve]].
+  - split; [lia|split; [cbn; intros c Hc; discriminate Hc|ids_solve]].
+  - split; [lia|split; [cbn; intros c Hc; discriminate Hc|ids_solve]].
+  - split; [lia|split; [cbn; intros c Hc; inv Hc; lia|ids_solve]].
+  - split; [lia|split; [intros c Hc; specialize (IH2 c Hc); lia|]].
+    ids_solve. eapply ids_in_weaken; [|exact IH3]. cbv beta. intros c Hc; lia.
+Qed.
+
+(* one TCPClientTransport.Send talks about its cached connection and the ids it allocates *)
+Lemma cshape_ids t n t' n' tr ok :
+  cshape t n t' n' tr ok ->
+  n <= n' /\ (forall c, tc_conn t' = Some c -> tc_conn t = Some c \/ n <= c < n') /\
+  ids_in (fun c => tc_conn t = Some c \/ n <= c < n') tr.
+Proof.
+  intros H. destruct H as [c Hc | c t' n' tr ok Hc Hd | t' n' tr ok Hc Hd].
+  - split; [lia|split; [intros c0 Hc0; left; exact Hc0|ids_solve]].
+  - apply dshape_ids in Hd. destruct Hd as (H1 & H2 & H3).
+    split; [exact H1|split; [intros c0 Hc0; right; exact (H2 c0 Hc0)|]].
+    ids_solve. eapply ids_in_weaken; [|exact H3]. cbv beta. intros c0 Hc0; right; exact Hc0.
+  - apply dshape_ids in Hd. destruct Hd as (H1 & H2 & H3).
+    split; [exact H1|split; [intros c0 Hc0; right; exact (H2 c0 Hc0)|]].
+    eapply ids_in_weaken; [|exact H3]. cbv beta. intros c0 Hc0; right; exact Hc0.
+Qed.
+
+Lemma client_send_ids t w t' w' tr ok :
+  tcp_client_send t w = (t', w', tr, ok) ->
+  w_next w <= w_next w' /\
+  ids_in (fun c => tc_conn t = Some c \/ w_next w <= c < w_next w') tr.
+Proof. intros H. apply client_shape, cshape_ids in H. destruct H as (H1 & _ & H3). split; assumption. Qed.
+
+(* every id of the trace of FailOver.Send is allocated when the send returns *)
+Theorem failover_send_ids f w f' w' tr ok :
+  fo_wf f (w_next w) -> failover_send f w = (f', w', tr, ok) ->
+  ids_in (fun c => c < w_next w') tr.
+Proof.
+  intros (_ & Hc & Hd & _) H.
+  assert (Hc' : forall p c, fo_primary f = Some p -> tc_conn p = Some c -> c < w_next w).
+  { intros p c E1 E2. apply Hc. unfold primary_id. rewrite E1. exact E2. }
+  assert (Hd' : forall s c, fo_secondary f = Some s -> tc_conn s = Some c -> c < w_next w).
+  { intros s c E1 E2. apply Hd. unfold secondary_id. rewrite E1. exact E2. }
+  clear Hc Hd. unfold failover_send in H.
+  destruct (fo_primary f) as [p|] eqn:Ep.
+  - destruct (tcp_client_send p w) as [[[p' w1] tr1] ok1] eqn:E1.
+    apply client_send_ids in E1. destruct E1 as (Hle1 & Hids1).
+    assert (Hp : ids_in (fun c => c < w_next w1) tr1).
+    { eapply ids_in_weaken; [|exact Hids1]. cbv beta. intros c [Hpc|Hr]; [|lia].
+      specialize (Hc' _ _ eq_refl Hpc). lia. }
+    destruct ok1.
+    + inv H. exact Hp.
+    + cbn [fo_secondary fo_primary] in H. destruct (fo_secondary f) as [s|] eqn:Es.
+      * destruct (tcp_client_send s w1) as [[[s' w2] tr2] ok2] eqn:E2.
+        apply client_send_ids in E2. destruct E2 as (Hle2 & Hids2). inv H.
+        apply ids_in_app.
+        -- eapply ids_in_weaken; [|exact Hp]. cbv beta. intros c Hlt; lia.
+        -- eapply ids_in_weaken; [|exact Hids2]. cbv beta. intros c [Hsc|Hr]; [|lia].
+           specialize (Hd' _ _ eq_refl Hsc). lia.
+      * inv H. exact Hp.
+  - destruct (fo_secondary f) as [s|] eqn:Es.
+    + destruct (tcp_client_send s w) as [[[s' w2] tr2] ok2] eqn:E2.
+      apply client_send_ids in E2. destruct E2 as (Hle2 & Hids2). inv H. cbn [app].
+      eapply ids_in_weaken; [|exact Hids2]. cbv beta. intros c [Hsc|Hr]; [|lia].
+      specialize (Hd' _ _ eq_refl Hsc). lia.
+    + inv H. apply ids_in_nil.
+Qed.
+
+Lemma bshape_ids k conn n conn' n' tr ok :
+  bshape k conn n conn' n' tr ok ->
+  n <= n' /\ (forall c, conn' = Some c -> conn = Some c \/ n <= c < n') /\
+  ids_in (fun c => conn = Some c \/ n <= c < n') tr.
+Proof.
+  induction 1 as [conn n|k c n|k c n conn' n' tr ok Hb (IH1 & IH2 & IH3)
+                 |k n conn' n' tr ok Hb (IH1 & IH2 & IH3)|k n conn' n' tr ok Hb (IH1 & IH2 & IH3)].
+  - split; [lia|split; [intros c Hc; left; exact Hc|ids_solve]].
+  - split; [lia|split; [intros c0 Hc0; left; exact Hc0|ids_solve]].
+  - split; [exact IH1|split].
+    + intros c0 Hc0. destruct (IH2 c0 Hc0) as [E|E]; [discriminate E|right; exact E].
+    + ids_solve. eapply ids_in_weaken; [|exact IH3]. cbv beta.
+      intros c0 [E|E]; [discriminate E|right; exact E].
+  - split; [exact IH1|split; [exact IH2|]]. ids_solve. exact IH3.
+  - split; [lia|split].
+    + intros c0 Hc0. destruct (IH2 c0 Hc0) as [E|E]; right; [inv E|]; lia.
+    + ids_solve. eapply ids_in_weaken; [|exact IH3]. cbv beta.
+      intros c0 [E|E]; right; [inv E|]; lia.
+Qed.
+
+Theorem backend_send_ids conn w conn' w' tr ok :
+  b_wf conn (w_next w) -> tcp_backend_send conn w = (conn', w', tr, ok) ->
+  ids_in (fun c => c < w_next w') tr.
+Proof.
+  unfold b_wf, tcp_backend_send. intros Hc H. apply bloop_shape in H.
+  destruct H as [ext [-> Hs]]. cbn [app]. apply bshape_ids in Hs. destruct Hs as (H1 & _ & H3).
+  eapply ids_in_weaken; [|exact H3]. cbv beta. intros c [E|E]; [|lia].
+  specialize (Hc c E). lia.
+Qed.
+
+(* ================================================================== C20_later_direct *)
+(* After the fail-over of C20_failover, the next send (in any later world w2, e.g. w' itself or
+   [with_plan w' pl]) never mentions the forgotten connection c, starts with a write on the
+   connection dialled by the fail-over, and if that write is accepted it is the whole send. *)
 Theorem C20_later_direct : forall f w p c s rest,
   w_wf w -> fo_wf f (w_next w) ->
   fo_primary f = Some p -> tc_conn p = Some c -> next_write c w = false ->
@@ -759,9 +895,558 @@ Proof.
   rewrite failover_primary_none in E2 by reflexivity. cbn [fo_secondary] in E2.
   split; [|split].
   - destruct (tcp_client_send _ w2) as [[[s' w4] tr4] ok4] eqn:E4. inv E2.
-    apply client_shape in E4. shapes; intros e Hin; cbn in Hin;
-      repeat (destruct Hin as [Hin|Hin]; [subst e; cbn; lia|]); contradiction.
-  - destruct (tcp_client_send _ w2) as [[[s' w4] tr4] ok4] eqn:E4. inv E2.
-    apply client_shape in E4. shapes; eexists; eexists; reflexivity.
-  - intros Hn2. rewrite (client_cached_ok _ (w_next w) _ eq_refl Hn2) in E2. inv E2. auto.
+    apply client_send_ids in E4. destruct E4 as (_ & Hids).
+    intros e Hin Hce. specialize (Hids e Hin c Hce). cbv beta in Hids. cbn [tc_conn] in Hids.
+    destruct Hids as [Heq|Hr]; [inv Heq|]; lia.
+  - unfold tcp_client_send in E2.
+    rewrite (loop_cached _ _ _ _ (w_next w)) in E2 by reflexivity.
+    destruct (next_write (w_next w) w2).
+    + inv E2. eexists; eexists; reflexivity.
+    + destruct (tcp_client_send_loop 1 _ _ _) as [[[s' w4] tr4] ok4] eqn:E4.
+      apply loop_dshape in E4. destruct E4 as (ext & -> & _). inv E2.
+      eexists; eexists; reflexivity.
+  - intros Hn2. rewrite (client_cached_ok {| tc_conn := Some (w_next w); tc_reconnectable := true |}
+                 (w_next w) w2 eq_refl Hn2) in E2. inv E2. auto.
 Qed.
+
+(* ================================================================== C20_refused *)
+(* A destination that refuses connections, no cached connection: FailOver.Send makes at most one
+   dial attempt (so at most 2), writes nothing, touches no connection, and reports an error. *)
+Theorem C20_refused : forall f w f' w' tr ok,
+  fo_wf f (w_next w) -> dial_refused w -> primary_id f = None -> secondary_id f = None ->
+  failover_send f w = (f', w', tr, ok) ->
+  ok = false /\ (tr = [] \/ tr = [EDial None]) /\
+  List.length (filter ev_is_dial tr) <= 2 /\ filter ev_is_write tr = [] /\
+  w_conns w' = w_conns w /\ w_next w' = w_next w /\ primary_id f' = None /\ secondary_id f' = None.
+Proof.
+  intros f w f' w' tr ok (Hrec & _) Hr Hp Hs H.
+  assert (E1 : exists f1, fo_primary f1 = None /\ fo_secondary f1 = fo_secondary f /\
+                          failover_send f w = failover_send f1 w).
+  { unfold primary_id in Hp. destruct (fo_primary f) as [[pc prec]|] eqn:Ep.
+    - cbn in Hp. subst pc. specialize (Hrec _ eq_refl). cbn in Hrec. subst prec.
+      exists {| fo_primary := None; fo_secondary := fo_secondary f |}.
+      split; [reflexivity|split; [reflexivity|]].
+      unfold failover_send. rewrite Ep. cbn [fo_primary fo_secondary].
+      unfold tcp_client_send at 1. rewrite loop_norec. reflexivity.
+    - exists f. auto. }
+  destruct E1 as (f1 & Ep1 & Es1 & E1). rewrite E1, (failover_primary_none _ _ Ep1), Es1 in H.
+  unfold secondary_id in Hs. destruct (fo_secondary f) as [[sc [|]]|] eqn:Es.
+  - cbn in Hs. subst sc. unfold tcp_client_send in H. rewrite loop_none_rec in H by reflexivity.
+    rewrite (w_dial_refused _ Hr) in H. cbn [snd] in H. inv H. unfold after_dial.
+    rewrite (w_dial_refused _ Hr). cbn. auto 10.
+  - cbn in Hs. subst sc. unfold tcp_client_send in H. rewrite loop_norec in H. inv H.
+    cbn. auto 10.
+  - inv H. unfold primary_id, secondary_id. rewrite Ep1, Es1. cbn. auto 10.
+Qed.
+
+Lemma after_dial_refused w :
+  dial_refused w -> w_conns (after_dial w) = w_conns w /\ w_next (after_dial w) = w_next w.
+Proof. intros H. unfold after_dial. rewrite (w_dial_refused _ H). split; reflexivity. Qed.
+
+(* TCPBackend.Send does not abort on a refused dial: it dials once per iteration *)
+Theorem C20_refused_backend : forall w conn' w' tr ok,
+  dial_refused w -> dial_refused (after_dial w) ->
+  tcp_backend_send None w = (conn', w', tr, ok) ->
+  ok = false /\ tr = [EDial None; EDial None] /\ conn' = None /\
+  w_conns w' = w_conns w /\ w_next w' = w_next w.
+Proof.
+  intros w conn' w' tr ok Hr1 Hr2 H. unfold tcp_backend_send in H.
+  rewrite bloop_none in H. rewrite (w_dial_refused _ Hr1) in H. cbn [snd] in H.
+  rewrite bloop_none in H. rewrite (w_dial_refused _ Hr2) in H. cbn [snd tcp_backend_send_loop app] in H.
+  inv H. destruct (after_dial_refused _ Hr1) as [A1 A2]. destruct (after_dial_refused _ Hr2) as [B1 B2].
+  rewrite B1, B2, A1, A2. auto.
+Qed.
+
+(* ================================================================== C20_no_dup *)
+Lemma no_okwrite_filter l : no_okwrite l -> filter ev_is_okwrite l = [].
+Proof.
+  induction l as [|e r IH]; intros H; [reflexivity|].
+  cbn [filter]. destruct e as [c [|]|d|c]; cbn [ev_is_okwrite].
+  - exfalso. apply (H c). left; reflexivity.
+  - apply IH. intros c' Hin. apply (H c'). right; exact Hin.
+  - apply IH. intros c' Hin. apply (H c'). right; exact Hin.
+  - apply IH. intros c' Hin. apply (H c'). right; exact Hin.
+Qed.
+
+Lemma ext_ok_count tr ok : ext_ok tr ok -> List.length (filter ev_is_okwrite tr) = if ok then 1 else 0.
+Proof.
+  destruct ok; cbn [ext_ok].
+  - intros (pre & c & -> & Hpre). rewrite filter_app, (no_okwrite_filter _ Hpre). reflexivity.
+  - intros H. rewrite (no_okwrite_filter _ H). reflexivity.
+Qed.
+
+(* exact number of accepted writes of one send, for ANY state and world *)
+Theorem C20_okwrite_count : forall f w f' w' tr ok,
+  failover_send f w = (f', w', tr, ok) ->
+  List.length (filter ev_is_okwrite tr) = if ok then 1 else 0.
+Proof. intros f w f' w' tr ok H. apply ext_ok_count. exact (failover_ext_ok _ _ _ _ _ _ H). Qed.
+
+Theorem C20_okwrite_count_backend : forall conn w conn' w' tr ok,
+  tcp_backend_send conn w = (conn', w', tr, ok) ->
+  List.length (filter ev_is_okwrite tr) = if ok then 1 else 0.
+Proof.
+  intros conn w conn' w' tr ok H. apply ext_ok_count.
+  apply bloop_ext in H. destruct H as (ext & -> & Hx). exact Hx.
+Qed.
+
+Theorem C20_no_dup : forall f w f' w' tr ok,
+  failover_send f w = (f', w', tr, ok) -> List.length (filter ev_is_okwrite tr) <= 1.
+Proof. intros f w f' w' tr ok H. rewrite (C20_okwrite_count _ _ _ _ _ _ H). destruct ok; lia. Qed.
+
+Theorem C20_no_dup_backend : forall conn w conn' w' tr ok,
+  tcp_backend_send conn w = (conn', w', tr, ok) -> List.length (filter ev_is_okwrite tr) <= 1.
+Proof. intros conn w conn' w' tr ok H. rewrite (C20_okwrite_count_backend _ _ _ _ _ _ H). destruct ok; lia. Qed.
+
+(* ================================================================== trace judge => count judge *)
+(* The statement
+     forall next tr ok, judge_C20_send tr ok = true -> judge_C20_obs (obs_of_trace next tr ok) = true
+   is FALSE: [so_dialled] only counts the accepted writes on ids 2 .. next-1, so an accepted write
+   on an id >= next is not seen by the observation (see the Example right below).  The minimal extra
+   hypothesis is [okwrites_below next tr]; it follows from [ids_below next tr = true], which holds
+   for every trace produced from a well-formed state with next = w_next of the world AFTER the
+   send (failover_send_ids / backend_send_ids above). *)
+Example C20_obs_needs_ids :
+  judge_C20_send [EWrite 5 true] true = true /\
+  judge_C20_obs (obs_of_trace 2 [EWrite 5 true] true) = false.
+Proof. split; vm_compute; reflexivity. Qed.
+
+Definition okwrites_below (next : nat) (tr : list io_event) : Prop :=
+  forall c, In (EWrite c true) tr -> c < next.
+Definition ids_below (next : nat) (tr : list io_event) : bool :=
+  forallb (fun e => forallb (fun c => Nat.ltb c next) (ev_ids e)) tr.
+
+Lemma ids_below_spec next tr : ids_below next tr = true <-> ids_in (fun c => c < next) tr.
+Proof.
+  unfold ids_below, ids_in. rewrite forallb_forall. split; intros H e Hin.
+  - specialize (H e Hin). rewrite forallb_forall in H. intros c Hc. apply Nat.ltb_lt. exact (H c Hc).
+  - rewrite forallb_forall. intros c Hc. apply Nat.ltb_lt. exact (H e Hin c Hc).
+Qed.
+
+Lemma ids_in_okwrites next tr : ids_in (fun c => c < next) tr -> okwrites_below next tr.
+Proof. intros H c Hin. apply (H _ Hin c). left; reflexivity. Qed.
+
+Lemma ids_below_okwrites next tr : ids_below next tr = true -> okwrites_below next tr.
+Proof. intros H. apply ids_in_okwrites, ids_below_spec, H. Qed.
+
+(* ---- counting ---- *)
+Lemma count_ev_cons f e r : count_ev f (e :: r) = Nat.b2n (f e) + count_ev f r.
+Proof. unfold count_ev. cbn [filter]. destruct (f e); reflexivity. Qed.
+Lemma count_ev_app f a b : count_ev f (a ++ b) = count_ev f a + count_ev f b.
+Proof. unfold count_ev. rewrite filter_app, app_length. reflexivity. Qed.
+Lemma count_ev_le f g tr : (forall e, f e = true -> g e = true) -> count_ev f tr <= count_ev g tr.
+Proof.
+  intros H. induction tr as [|e r IH]; [cbn; lia|]. rewrite !count_ev_cons.
+  destruct (f e) eqn:Ef; [rewrite (H e Ef)|]; cbn [Nat.b2n]; lia.
+Qed.
+Lemma count_ev_in f e tr : In e tr -> f e = true -> 1 <= count_ev f tr.
+Proof.
+  induction tr as [|e' r IH]; intros Hin He; [contradiction|]. rewrite count_ev_cons.
+  destruct Hin as [->|Hin]; [rewrite He; cbn; lia|]. specialize (IH Hin He). lia.
+Qed.
+Lemma existsb_false_count f tr : existsb f tr = false -> count_ev f tr = 0.
+Proof.
+  induction tr as [|e r IH]; [reflexivity|]. cbn [existsb]. rewrite count_ev_cons.
+  destruct (f e); cbn; [discriminate|exact IH].
+Qed.
+
+Lemma okwrite_write e : ev_is_okwrite e = true -> ev_is_write e = true.
+Proof. destruct e as [c [|]|d|c]; cbn; congruence. Qed.
+Lemma writes_to_write c e : ev_writes_to c e = true -> ev_is_write e = true.
+Proof. destruct e as [c' b|d|c']; cbn; congruence. Qed.
+
+(* what the conjuncts of the trace judge say *)
+Lemma judge_parts tr ok :
+  judge_C20_send tr ok = true ->
+  (if ok then count_ev ev_is_okwrite tr = 1 /\
+              ev_is_okwrite (last (filter ev_is_write tr) (EClose 0)) = true
+   else count_ev ev_is_okwrite tr = 0) /\
+  failed_forgotten tr = true /\ count_ev ev_is_dial tr <= 2 /\ count_ev ev_is_write tr <= 3.
+Proof.
+  unfold judge_C20_send, count_ev. cbv zeta. rewrite !andb_true_iff, !Nat.leb_le.
+  intros (((H1 & H2) & H3) & H4). repeat split; try assumption.
+  destruct ok.
+  - rewrite andb_true_iff, Nat.eqb_eq in H1. exact H1.
+  - rewrite Nat.eqb_eq in H1. exact H1.
+Qed.
+
+(* an accepted write is the last write of the trace *)
+Lemma okwrite_is_last (tr : list io_event) (ok : bool) :
+  (if ok then count_ev ev_is_okwrite tr = 1 /\
+              ev_is_okwrite (last (filter ev_is_write tr) (EClose 0)) = true
+   else count_ev ev_is_okwrite tr = 0) ->
+  forall pre e post, tr = pre ++ e :: post -> ev_is_okwrite e = true -> filter ev_is_write post = [].
+Proof.
+  intros H pre e post -> He.
+  rewrite count_ev_app, count_ev_cons, He in H. cbn [Nat.b2n] in H.
+  destruct ok; [|lia]. destruct H as [Hcnt Hlast].
+  destruct (filter ev_is_write post) as [|y q] eqn:Eq; [reflexivity|exfalso].
+  assert (Hne : y :: q <> []) by discriminate.
+  destruct (exists_last Hne) as (q' & x & Ex).
+  rewrite filter_app in Hlast. cbn [filter] in Hlast.
+  rewrite (okwrite_write _ He), Eq, Ex, app_comm_cons, app_assoc, last_last in Hlast.
+  assert (Hx : In x post).
+  { assert (Hx : In x (filter ev_is_write post)) by (rewrite Eq, Ex; apply in_or_app; right; left; reflexivity).
+    apply filter_In in Hx. apply Hx. }
+  pose proof (count_ev_in _ _ _ Hx Hlast). lia.
+Qed.
+
+Lemma failed_forgotten_tl e r : failed_forgotten (e :: r) = true -> failed_forgotten r = true.
+Proof.
+  destruct e as [c [|]|d|c]; cbn [failed_forgotten]; try (intros H; exact H).
+  destruct r as [|[c' b|d|c'] r']; try discriminate.
+  rewrite !andb_true_iff. intros (_ & H). exact H.
+Qed.
+
+(* a connection is written at most once per send *)
+Lemma writes_once c : forall tr,
+  failed_forgotten tr = true ->
+  (forall pre e post, tr = pre ++ e :: post -> ev_is_okwrite e = true -> filter ev_is_write post = []) ->
+  count_ev (ev_writes_to c) tr <= 1.
+Proof.
+  induction tr as [|e r IH]; intros Hff Hlast; [cbn; lia|].
+  rewrite count_ev_cons. destruct (ev_writes_to c e) eqn:Ew.
+  - cbn [Nat.b2n]. enough (count_ev (ev_writes_to c) r = 0) by lia.
+    destruct e as [c' [|]|d|c']; cbn in Ew; try discriminate Ew.
+    + pose proof (Hlast [] _ r eq_refl eq_refl) as Hr.
+      pose proof (count_ev_le (ev_writes_to c) ev_is_write r (writes_to_write c)) as Hle.
+      unfold count_ev at 2 in Hle. rewrite Hr in Hle. cbn in Hle. lia.
+    + apply Nat.eqb_eq in Ew. subst c'. cbn [failed_forgotten] in Hff.
+      destruct r as [|[c' b|d|c'] r']; try discriminate Hff.
+      rewrite !andb_true_iff, negb_true_iff in Hff. destruct Hff as ((_ & Hex) & _).
+      rewrite count_ev_cons. cbn [ev_writes_to Nat.b2n]. rewrite (existsb_false_count _ _ Hex). reflexivity.
+  - cbn [Nat.b2n]. apply IH; [exact (failed_forgotten_tl _ _ Hff)|].
+    intros pre e' post Heq. apply (Hlast (e :: pre)). rewrite Heq. reflexivity.
+Qed.
+
+Lemma count_writes_split c tr :
+  count_ev (is_write c true) tr + count_ev (is_write c false) tr = count_ev (ev_writes_to c) tr.
+Proof.
+  induction tr as [|e r IH]; [reflexivity|]. rewrite !count_ev_cons.
+  destruct e as [c' [|]|d|c']; cbn [is_write ev_writes_to]; try destruct (Nat.eqb c c'); cbn; lia.
+Qed.
+
+(* every failed write on c is followed by a close of c *)
+Lemma fail_le_close c : forall n tr, List.length tr <= n -> failed_forgotten tr = true ->
+  count_ev (is_write c false) tr <= count_ev (is_close c) tr.
+Proof.
+  induction n as [|n IH]; intros tr Hlen Hff.
+  - destruct tr; [cbn; lia|cbn in Hlen; lia].
+  - destruct tr as [|e r]; [cbn; lia|]. cbn [List.length] in Hlen.
+    destruct e as [c' [|]|d|c'].
+    + rewrite !count_ev_cons. cbn [is_write is_close Bool.eqb]. rewrite andb_false_r. cbn [Nat.b2n].
+      apply IH; [lia|exact (failed_forgotten_tl _ _ Hff)].
+    + cbn [failed_forgotten] in Hff. destruct r as [|[c'' b|d|c''] r']; try discriminate Hff.
+      rewrite !andb_true_iff in Hff. destruct Hff as ((Hcc & _) & Hff). apply Nat.eqb_eq in Hcc. subst c''.
+      cbn [failed_forgotten] in Hff. cbn [List.length] in Hlen.
+      rewrite !count_ev_cons. cbn [is_write is_close Bool.eqb]. rewrite andb_true_r.
+      assert (Hr : count_ev (is_write c false) r' <= count_ev (is_close c) r') by (apply IH; [lia|exact Hff]).
+      cbn [Nat.b2n]. lia.
+    + rewrite !count_ev_cons. cbn [is_write is_close Nat.b2n].
+      apply IH; [lia|exact (failed_forgotten_tl _ _ Hff)].
+    + rewrite !count_ev_cons. cbn [is_write Nat.b2n].
+      assert (Hr : count_ev (is_write c false) r <= count_ev (is_close c) r)
+        by (apply IH; [lia|exact (failed_forgotten_tl _ _ Hff)]).
+      lia.
+Qed.
+
+Lemma cached_ok_counts c tr ok : judge_C20_send tr ok = true -> cached_ok (counts_of c tr) = true.
+Proof.
+  intros H. apply judge_parts in H. destruct H as (H1 & Hff & _ & _).
+  unfold cached_ok, counts_of. cbn [cc_ok cc_fail cc_close]. rewrite andb_true_iff, !Nat.leb_le. split.
+  - rewrite count_writes_split. apply writes_once; [exact Hff|exact (okwrite_is_last _ _ H1)].
+  - exact (fail_le_close c _ tr (le_n _) Hff).
+Qed.
+
+(* ---- the accepted writes counted by the observation ---- *)
+Definition total_ok (next : nat) (tr : list io_event) : nat :=
+  count_ev (is_write 0 true) tr + count_ev (is_write 1 true) tr +
+  list_sum (map (fun c => count_ev (is_write c true) tr) (seq 2 (next - 2))).
+
+Lemma list_sum_map_add {A} (f g : A -> nat) l :
+  list_sum (map (fun x => f x + g x) l) = list_sum (map f l) + list_sum (map g l).
+Proof. unfold list_sum. induction l as [|x r IH]; cbn [map fold_right]; [reflexivity|]. rewrite IH. lia. Qed.
+Lemma list_sum_map_zero {A} (l : list A) : list_sum (map (fun _ => 0) l) = 0.
+Proof. unfold list_sum. induction l as [|x r IH]; cbn [map fold_right]; [reflexivity|exact IH]. Qed.
+Lemma sum_eqb_seq c : forall n a,
+  list_sum (map (fun c' => Nat.b2n (Nat.eqb c' c)) (seq a n)) = Nat.b2n ((a <=? c) && (c <? a + n)).
+Proof.
+  unfold list_sum. induction n as [|n IH]; intros a; cbn [seq map fold_right].
+  - destruct (Nat.leb_spec a c), (Nat.ltb_spec c (a + 0)); cbn; lia.
+  - rewrite IH.
+    destruct (Nat.eqb_spec a c), (Nat.leb_spec (S a) c), (Nat.ltb_spec c (S a + n)),
+             (Nat.leb_spec a c), (Nat.ltb_spec c (a + S n)); cbn; lia.
+Qed.
+
+Lemma is_write_true c e :
+  is_write c true e = match e with EWrite c' true => Nat.eqb c c' | _ => false end.
+Proof. destruct e as [c' [|]|d|c']; cbn; rewrite ?andb_true_r, ?andb_false_r; reflexivity. Qed.
+
+Lemma total_ok_count next tr : okwrites_below next tr -> total_ok next tr = count_ev ev_is_okwrite tr.
+Proof.
+  unfold total_ok. induction tr as [|e r IH]; intros Hb.
+  - cbn. rewrite list_sum_map_zero. reflexivity.
+  - assert (Hbr : okwrites_below next r) by (intros c Hin; apply Hb; right; exact Hin).
+    specialize (IH Hbr). rewrite !count_ev_cons.
+    rewrite (map_ext _ (fun c => Nat.b2n (is_write c true e) + count_ev (is_write c true) r))
+      by (intros c; apply count_ev_cons).
+    rewrite list_sum_map_add.
+    enough (Nat.b2n (is_write 0 true e) + Nat.b2n (is_write 1 true e) +
+            list_sum (map (fun c => Nat.b2n (is_write c true e)) (seq 2 (next - 2))) =
+            Nat.b2n (ev_is_okwrite e)) by lia.
+    rewrite (map_ext _ (fun c => Nat.b2n (match e with EWrite c' true => Nat.eqb c c' | _ => false end)))
+      by (intros c; rewrite is_write_true; reflexivity).
+    rewrite !is_write_true.
+    destruct e as [c' [|]|d|c']; cbn [ev_is_okwrite Nat.b2n]; rewrite ?list_sum_map_zero; try reflexivity.
+    assert (Hc : c' < next) by (apply Hb; left; reflexivity).
+    rewrite sum_eqb_seq.
+    destruct (Nat.eqb_spec 0 c'), (Nat.eqb_spec 1 c'), (Nat.leb_spec 2 c'), (Nat.ltb_spec c' (2 + (next - 2)));
+      cbn; lia.
+Qed.
+
+(* ---- the link, for ALL traces whose accepted writes are on ids below next ---- *)
+Theorem C20_trace_judge_implies_obs : forall next tr ok,
+  okwrites_below next tr ->
+  judge_C20_send tr ok = true -> judge_C20_obs (obs_of_trace next tr ok) = true.
+Proof.
+  intros next tr ok Hb H. unfold judge_C20_obs, obs_of_trace.
+  cbn [so_ok so_dials so_c0 so_c1 so_dialled]. cbv zeta.
+  rewrite (cached_ok_counts 0 _ _ H), (cached_ok_counts 1 _ _ H).
+  unfold counts_of at 1 2. cbn [cc_ok]. fold (total_ok next tr). rewrite (total_ok_count _ _ Hb).
+  apply judge_parts in H. destruct H as (H1 & _ & Hd & _).
+  rewrite !andb_true_r, andb_true_iff, Nat.eqb_eq, Nat.leb_le. split.
+  - destruct ok; [exact (proj1 H1)|exact H1].
+  - pose proof (count_ev_le is_dial_ok ev_is_dial tr) as Hle.
+    assert (Hi : forall e, is_dial_ok e = true -> ev_is_dial e = true)
+      by (intros [c b|[d|]|c]; cbn; congruence).
+    specialize (Hle Hi). lia.
+Qed.
+
+Corollary C20_trace_judge_implies_obs_ids : forall next tr ok,
+  ids_below next tr = true ->
+  judge_C20_send tr ok = true -> judge_C20_obs (obs_of_trace next tr ok) = true.
+Proof. intros next tr ok Hb. apply C20_trace_judge_implies_obs, ids_below_okwrites, Hb. Qed.
+
+(* the hypothesis holds for the traces of the model, with next = the counter AFTER the send *)
+Theorem C20_ids_below_client : forall f w f' w' tr ok,
+  fo_wf f (w_next w) -> failover_send f w = (f', w', tr, ok) -> ids_below (w_next w') tr = true.
+Proof. intros f w f' w' tr ok Hf H. apply ids_below_spec. exact (failover_send_ids _ _ _ _ _ _ Hf H). Qed.
+
+Theorem C20_ids_below_backend : forall conn w conn' w' tr ok,
+  b_wf conn (w_next w) -> tcp_backend_send conn w = (conn', w', tr, ok) -> ids_below (w_next w') tr = true.
+Proof. intros conn w conn' w' tr ok Hf H. apply ids_below_spec. exact (backend_send_ids _ _ _ _ _ _ Hf H). Qed.
+
+(* one send, observed *)
+Theorem C20_obs_send_client : forall f w f' w' tr ok,
+  fo_wf f (w_next w) -> failover_send f w = (f', w', tr, ok) ->
+  judge_C20_obs (obs_of_trace (w_next w') tr ok) = true.
+Proof.
+  intros f w f' w' tr ok Hf H. apply C20_trace_judge_implies_obs_ids.
+  - exact (C20_ids_below_client _ _ _ _ _ _ Hf H).
+  - exact (proj1 (failover_send_spec _ _ _ _ _ _ Hf H)).
+Qed.
+
+Theorem C20_obs_send_backend : forall conn w conn' w' tr ok,
+  b_wf conn (w_next w) -> tcp_backend_send conn w = (conn', w', tr, ok) ->
+  judge_C20_obs (obs_of_trace (w_next w') tr ok) = true.
+Proof.
+  intros conn w conn' w' tr ok Hf H. apply C20_trace_judge_implies_obs_ids.
+  - exact (C20_ids_below_backend _ _ _ _ _ _ Hf H).
+  - exact (proj1 (backend_send_spec _ _ _ _ _ _ Hf H)).
+Qed.
+
+(* ================================================================== what the extracted runner prints *)
+(* the observations printed by Run.sendfault_client / Run.sendfault_backend, as data *)
+Fixpoint client_obs (plans : list (list conn_script)) (f : failover) (w : world) : list send_obs :=
+  match plans with
+  | [] => []
+  | pl :: r => let '(f', w', tr, ok) := failover_send f (with_plan w pl) in
+               obs_of_trace (w_next w') tr ok :: client_obs r f' w'
+  end.
+Fixpoint backend_obs (plans : list (list conn_script)) (c : option nat) (w : world) : list send_obs :=
+  match plans with
+  | [] => []
+  | pl :: r => let '(c', w', tr, ok) := tcp_backend_send c (with_plan w pl) in
+               obs_of_trace (w_next w') tr ok :: backend_obs r c' w'
+  end.
+
+Theorem C20_client_obs_printed : forall plans f w,
+  sendfault_client plans f w = flat_map e_obs (client_obs plans f w).
+Proof.
+  induction plans as [|pl r IH]; intros f w; [reflexivity|].
+  cbn [sendfault_client client_obs].
+  destruct (failover_send f (with_plan w pl)) as [[[f' w'] tr] ok].
+  cbn [flat_map]. rewrite IH. reflexivity.
+Qed.
+
+Theorem C20_backend_obs_printed : forall plans c w,
+  sendfault_backend plans c w = flat_map e_obs (backend_obs plans c w).
+Proof.
+  induction plans as [|pl r IH]; intros c w; [reflexivity|].
+  cbn [sendfault_backend backend_obs].
+  destruct (tcp_backend_send c (with_plan w pl)) as [[[c' w'] tr] ok].
+  cbn [flat_map]. rewrite IH. reflexivity.
+Qed.
+
+(* [w_wf] is not needed (only the ids cached in the state matter); the statements with it follow *)
+Theorem C20_obs_judged_client_strong : forall plans f w,
+  fo_wf f (w_next w) -> forallb judge_C20_obs (client_obs plans f w) = true.
+Proof.
+  induction plans as [|pl r IH]; intros f w Hf; [reflexivity|].
+  cbn [client_obs]. destruct (failover_send f (with_plan w pl)) as [[[f' w'] tr] ok] eqn:E.
+  assert (Hf0 : fo_wf f (w_next (with_plan w pl))) by exact Hf.
+  cbn [forallb]. rewrite (C20_obs_send_client _ _ _ _ _ _ Hf0 E).
+  apply IH. exact (proj1 (C20_wf_preserved_client _ _ _ _ _ _ Hf0 E)).
+Qed.
+
+Theorem C20_obs_judged_backend_strong : forall plans conn w,
+  b_wf conn (w_next w) -> forallb judge_C20_obs (backend_obs plans conn w) = true.
+Proof.
+  induction plans as [|pl r IH]; intros conn w Hf; [reflexivity|].
+  cbn [backend_obs]. destruct (tcp_backend_send conn (with_plan w pl)) as [[[c' w'] tr] ok] eqn:E.
+  assert (Hf0 : b_wf conn (w_next (with_plan w pl))) by exact Hf.
+  cbn [forallb]. rewrite (C20_obs_send_backend _ _ _ _ _ _ Hf0 E).
+  apply IH. exact (proj1 (C20_wf_preserved_backend _ _ _ _ _ _ Hf0 E)).
+Qed.
+
+Theorem C20_obs_judged_client : forall plans f w,
+  w_wf w -> fo_wf f (w_next w) -> forallb judge_C20_obs (client_obs plans f w) = true.
+Proof. intros plans f w _ Hf. exact (C20_obs_judged_client_strong plans f w Hf). Qed.
+
+Theorem C20_obs_judged_backend : forall plans conn w,
+  w_wf w -> b_wf conn (w_next w) -> forallb judge_C20_obs (backend_obs plans conn w) = true.
+Proof. intros plans conn w _ Hf. exact (C20_obs_judged_backend_strong plans conn w Hf). Qed.
+
+(* ================================================================== non-vacuity: concrete worlds *)
+(* (a) the cached inbound connection (id 0) fails on write; the secondary dials a fresh one *)
+Definition ex_w_stale : world := {| w_conns := [(0, [false])]; w_dials := [Some []]; w_next := 2 |}.
+Definition ex_f_stale : failover :=
+  {| fo_primary := Some {| tc_conn := Some 0; tc_reconnectable := false |};
+     fo_secondary := Some {| tc_conn := None; tc_reconnectable := true |} |}.
+
+Example ex_stale_wf : w_wf ex_w_stale /\ fo_wf ex_f_stale (w_next ex_w_stale).
+Proof. split; [intros c s [H|[]]; inv H; cbn; lia|wf_goal]. Qed.
+
+(* the hypotheses of C20_failover / C20_later_direct hold in this world *)
+Example ex_stale_hyps :
+  fo_primary ex_f_stale = Some {| tc_conn := Some 0; tc_reconnectable := false |} /\
+  next_write 0 ex_w_stale = false /\
+  fo_secondary ex_f_stale = Some {| tc_conn := None; tc_reconnectable := true |} /\
+  w_dials ex_w_stale = Some [] :: [] /\ hd true (@nil bool) = true.
+Proof. repeat split. Qed.
+
+Example ex_stale_run :
+  let '(f', w', tr, ok) := failover_send ex_f_stale ex_w_stale in
+  (tr, ok) = ([EWrite 0 false; EClose 0; EDial (Some 2); EWrite 2 true], true) /\
+  (* the later send goes straight to connection 2 *)
+  (let '(_, _, tr2, ok2) := failover_send f' (with_plan w' []) in (tr2, ok2) = ([EWrite 2 true], true)).
+Proof. vm_compute. split; reflexivity. Qed.
+
+(* the cached connection of a reconnectable client (id 1) fails: same Send re-dials *)
+Example ex_client_stale_run :
+  let w := {| w_conns := [(1, [false])]; w_dials := [Some []]; w_next := 2 |} in
+  let f := {| fo_primary := None; fo_secondary := Some {| tc_conn := Some 1; tc_reconnectable := true |} |} in
+  w_wf w /\ fo_wf f (w_next w) /\
+  (let '(_, _, tr, ok) := failover_send f w in
+   (tr, ok) = ([EWrite 1 false; EClose 1; EDial (Some 2); EWrite 2 true], true)).
+Proof.
+  split; [intros c s [H|[]]; inv H; cbn; lia|split; [wf_goal|vm_compute; reflexivity]].
+Qed.
+
+(* (b) a destination that refuses connections *)
+Definition ex_w_refuse : world := {| w_conns := []; w_dials := []; w_next := 2 |}.
+Definition ex_f_fresh : failover :=
+  {| fo_primary := None; fo_secondary := Some {| tc_conn := None; tc_reconnectable := true |} |}.
+
+Example ex_refuse_hyps :
+  w_wf ex_w_refuse /\ fo_wf ex_f_fresh (w_next ex_w_refuse) /\ dial_refused ex_w_refuse /\
+  dial_refused (after_dial ex_w_refuse) /\
+  primary_id ex_f_fresh = None /\ secondary_id ex_f_fresh = None /\
+  dial_refused (with_plan ex_w_refuse []) /\ b_wf None (w_next ex_w_refuse).
+Proof.
+  split; [intros c s []|]. split; [wf_goal|]. cbn. repeat split. intros c H; discriminate H.
+Qed.
+
+Example ex_refuse_run :
+  (let '(_, _, tr, ok) := failover_send ex_f_fresh ex_w_refuse in (tr, ok) = ([EDial None], false)) /\
+  (let '(_, _, tr, ok) := tcp_backend_send None ex_w_refuse in (tr, ok) = ([EDial None; EDial None], false)).
+Proof. vm_compute. split; reflexivity. Qed.
+
+(* (c) the destination accepts the connection, then resets it on the first write *)
+Definition ex_w_reset : world := {| w_conns := []; w_dials := [Some [false]; Some []]; w_next := 2 |}.
+Definition ex_w_reset2 : world := {| w_conns := []; w_dials := [Some [false]; Some [false]]; w_next := 2 |}.
+
+Example ex_reset_run :
+  w_wf ex_w_reset /\ fo_wf ex_f_fresh (w_next ex_w_reset) /\
+  (let '(_, _, tr, ok) := failover_send ex_f_fresh ex_w_reset in
+   (tr, ok) = ([EDial (Some 2); EWrite 2 false; EClose 2; EDial (Some 3); EWrite 3 true], true)) /\
+  (let '(_, _, tr, ok) := tcp_backend_send None ex_w_reset in
+   (tr, ok) = ([EDial (Some 2); EWrite 2 false; EClose 2; EDial (Some 3); EWrite 3 true], true)) /\
+  (* reset twice: an error, nothing accepted, the loop stops after two dials *)
+  (let '(_, _, tr, ok) := failover_send ex_f_fresh ex_w_reset2 in
+   (tr, ok) = ([EDial (Some 2); EWrite 2 false; EClose 2; EDial (Some 3); EWrite 3 false; EClose 3], false)).
+Proof.
+  split; [intros c s []|]. split; [wf_goal|]. vm_compute. repeat split.
+Qed.
+
+(* (d) the schedule of the extracted runner: three sends (stale primary + fresh dial, direct,
+   direct), all observations judged; backend from a cached connection 0: accepted / cached
+   connection and the dialled one both reset (error) / reset then fresh dial / direct *)
+Example ex_obs_client :
+  let obs := client_obs [[[]]; []; [[false]]] ex_f_stale
+               {| w_conns := [(0, [false])]; w_dials := []; w_next := 2 |} in
+  map so_ok obs = [true; true; true] /\ map so_dials obs = [1; 0; 0] /\
+  forallb judge_C20_obs obs = true.
+Proof. vm_compute. repeat split. Qed.
+
+Example ex_obs_client2 :
+  let obs := client_obs [[[false]; [false]]; []; [[]]] ex_f_fresh ex_w_refuse in
+  map so_ok obs = [false; false; true] /\ map so_dials obs = [2; 0; 1] /\
+  forallb judge_C20_obs obs = true.
+Proof. vm_compute. repeat split. Qed.
+
+Example ex_obs_backend :
+  let w := {| w_conns := [(0, [true; false])]; w_dials := []; w_next := 2 |} in
+  let obs := backend_obs [[]; [[false]; []]; [[false]; []]; []] (Some 0) w in
+  w_wf w /\ b_wf (Some 0) (w_next w) /\
+  map so_ok obs = [true; false; true; true] /\ map so_dials obs = [0; 1; 2; 0] /\
+  forallb judge_C20_obs obs = true.
+Proof.
+  split; [intros c s [H|[]]; inv H; cbn; lia|]. split; [intros c H; inv H; cbn; lia|].
+  vm_compute. repeat split.
+Qed.
+
+(* ================================================================== axiom check *)
+Print Assumptions C20_judged_client.
+Print Assumptions C20_judged_backend.
+Print Assumptions C20_wf_preserved_client.
+Print Assumptions C20_wf_preserved_backend.
+Print Assumptions C20_judged_client_seq.
+Print Assumptions C20_judged_backend_seq.
+Print Assumptions C20_judged_client_plans.
+Print Assumptions C20_judged_backend_plans.
+Print Assumptions C20_success_means_written.
+Print Assumptions C20_error_means_unwritten.
+Print Assumptions C20_success_means_written_backend.
+Print Assumptions C20_error_means_unwritten_backend.
+Print Assumptions failover_send_w_wf.
+Print Assumptions backend_send_w_wf.
+Print Assumptions C20_failover.
+Print Assumptions C20_later_direct.
+Print Assumptions C20_refused.
+Print Assumptions C20_refused_backend.
+Print Assumptions C20_okwrite_count.
+Print Assumptions C20_okwrite_count_backend.
+Print Assumptions C20_no_dup.
+Print Assumptions C20_no_dup_backend.
+Print Assumptions C20_trace_judge_implies_obs.
+Print Assumptions C20_trace_judge_implies_obs_ids.
+Print Assumptions C20_ids_below_client.
+Print Assumptions C20_ids_below_backend.
+Print Assumptions C20_obs_send_client.
+Print Assumptions C20_obs_send_backend.
+Print Assumptions C20_client_obs_printed.
+Print Assumptions C20_backend_obs_printed.
+Print Assumptions C20_obs_judged_client_strong.
+Print Assumptions C20_obs_judged_backend_strong.
+Print Assumptions C20_obs_judged_client.
+Print Assumptions C20_obs_judged_backend.
